@@ -1,9 +1,9 @@
 import Vflow.Model.Ipfix
 /-!
-# A statement-level IR for the functions of `ipfix/decoder.go`, and its Go semantics
+# A statement-level IR for the functions of `ipfix/decoder.go` and `netflow/v9/decoder.go`, and its Go semantics
 
-`go/cmd/factgen/ipfix_ir.go` translates the decoder's functions from the Go AST into `Func` values on every run
-(`Vflow.Gen.IpfixIR`): expressions, assignments, `if`, `for`, `range`, `break`, `return`, the type switch on
+`go/cmd/factgen/ipfix_ir.go` translates the two decoders' functions from the Go AST into `Func` values on every run
+(`Vflow.Gen.IpfixIR`, `Vflow.Gen.V9IR`): expressions, assignments, `if`, `for`, `range`, `break`, `return`, the type switch on
 `nonfatalError`, calls.  What it does not recognise becomes `.unrecognised "<go text>"`, on which the interpreter
 yields no result, so that no theorem about the function can be proved.
 
